@@ -6,7 +6,6 @@ from typing import TYPE_CHECKING
 from typing import Self
 
 from pest.grammar import Expression
-from pest.grammar.expressions.terminals import Identifier
 from pest.pairs import Pair
 
 if TYPE_CHECKING:
@@ -98,17 +97,9 @@ class Rule(Expression):
         tag: str | None = state.tag_stack.pop() if state.tag_stack else None
 
         if self.modifier & ATOMIC:  # TODO: COMMENT and WHITESPACE too?
-            if isinstance(self.expression, Rule):
-                rule: Rule | None = self.expression
-            elif isinstance(self.expression, Identifier):
-                assert state.parser
-                rule = state.parser.rules.get(self.expression.value)
-            else:
-                rule = None
-
-            if not rule or not rule.modifier & (NONATOMIC | COMPOUND):
-                # Atomic rule silences children
-                children = []
+            # Atomic rule silences children, except those produced by nested
+            # compound-atomic or non-atomic rules.
+            children = state.atomic_children(children)
 
         pairs.append(
             Pair(
@@ -175,16 +166,7 @@ class Rule(Expression):
 
                 if self.modifier & ATOMIC:  # TODO: COMMENT and WHITESPACE too?
                     gen.writeln(f"# Atomic rule: {self.name!r}")
-                    assert gen.rules is not None
-                    if isinstance(self.expression, Rule):
-                        rule: Rule | None = self.expression
-                    elif isinstance(self.expression, Identifier):
-                        rule = gen.rules.get(self.expression.value)
-                    else:
-                        rule = None
-
-                    if not rule or not rule.modifier & (NONATOMIC | COMPOUND):
-                        children = "[]"
+                    children = f"state.atomic_children({inner_pairs})"
 
                 pair = (
                     f"Pair("
